@@ -601,12 +601,13 @@ def structure(spec):
 # --------------------------------------------------------------------------
 # check
 # --------------------------------------------------------------------------
-def build(spec):
+def build(spec, filt=None):
     import chi
     from vf.analytic_model import AnalyticModel
     n_s = spec['n_samples']
     model = AnalyticModel(spec['n_out'], spec['n_par'], PAR_NAMES[:spec['n_par']], OUT_NAMES[:spec['n_out']])
-    filt = rf.build(spec['parts'], _obs(spec), spec['composed'])
+    if filt is None:
+        filt = rf.build(spec['parts'], _obs(spec), spec['composed'])
     pm = ref.build_pop(spec['pop'], None, None if spec.get('late') else n_s)
     cov = None
     if spec['cov'] is not None:
@@ -631,9 +632,27 @@ def check(case):
     names_want, ids_want = names_ids(s)
 
     with case.clause('construct'):
-        P = build(s)
+        user_filter = rf.build(s['parts'], _obs(s), s['composed'])
+        P = build(s, filt=user_filter)
     if case.fails:
         return
+
+    # The user's filter object is re-used for a second posterior (same data, e.g. another noise
+    # model or prior): both posteriors must score the data in the order of `times`, and building
+    # the second must not change the first.
+    with case.clause('shared_filter'):
+        v0 = np.array(s['vecs'][0], dtype=float)
+        before = P(v0.copy())
+        P2 = build(s, filt=user_filter)
+        after = P(v0.copy())
+        second = P2(v0.copy())
+        if np.isfinite(before):
+            case.close(after, before, rtol=1e-12, what='first posterior after a second one was built from the same filter')
+            case.close(second, before, rtol=1e-12, what='second posterior built from the same filter object')
+        P3 = build(s)
+        fresh = P3(v0.copy())
+        if np.isfinite(fresh):
+            case.close(before, fresh, rtol=1e-12, what='posterior from the shared filter vs posterior from a fresh filter')
 
     with case.clause('counts'):
         case.equal(int(P.n_parameters()), L['n_total'], 'n_parameters()')
